@@ -231,6 +231,43 @@ def zlib_ladder(ctx):
             ctx.violation(f"zlib-container-roundtrip-mismatch {sp[3][1]}", f"uncompress(compress(x)) != x for {len(sp[2]) // 2} bytes", wit)
 
     codec_run.run_items("san", specs, on_item, batch=10)
+    # look-alike payloads decoded back to back: same length, same Adler-32 (three consecutive bytes moved by +1, -2, +1
+    # leave both running sums alone), and - being noise, which deflate stores - the same compressed length.  Whatever a
+    # container remembers between calls must not confuse them.  A, B, A, B run in one process, in this order.
+    twins = []
+    for n in (40, 3000, 20000, 70000) + ((200000, 1 << 20) if ctx.tier != "quick" else ()):
+        for rep in range(3):
+            a = bytearray(ctx.rng.randbytes(n))
+            i = next(j for j in range(ctx.rng.randrange(0, n - 3), n - 2) if a[j] < 255 and a[j + 1] >= 2 and a[j + 2] < 255) \
+                if any(a[j] < 255 and a[j + 1] >= 2 and a[j + 2] < 255 for j in range(n - 2)) else None
+            if i is None:
+                continue
+            b = bytearray(a)
+            b[i] += 1; b[i + 1] -= 2; b[i + 2] += 1
+            import zlib as _z
+            assert _z.adler32(bytes(a)) == _z.adler32(bytes(b)) and a != b
+            for x in (a, b, a, b, b, a):
+                twins.append(("zlib", "roundtrip", bytes(x).hex(), ("zlib", "look-alike-twins size=%d" % n)))
+            ctx.bump("look_alike_twin_pairs_same_length_same_adler32")
+            if len(_z.compress(bytes(a))) == len(_z.compress(bytes(b))):
+                ctx.bump("look_alike_twin_pairs_also_same_compressed_length")
+    codec_run.run_items("san", twins, on_item, batch=6)
+    # ... and the same through the codecs that carry free-length content
+    tw = []
+    for rep in range(6):
+        npts = ctx.rng.choice([200, 1024, 5000])
+        pts = bytearray(ctx.rng.randbytes(3 * npts))
+        j = next(j for j in range(len(pts) - 2) if pts[j] < 255 and pts[j + 1] >= 2 and pts[j + 2] < 255)
+        q = bytearray(pts); q[j] += 1; q[j + 1] -= 2; q[j + 2] += 1
+        base = G.v2_overview(ctx.rng)
+        for x in (pts, q, pts, q):
+            tw.append(("v2_overview", "roundtrip", dict(base, points=bytes(x).hex()), ("roundtrip", "look-alike-twins")))
+        w = bytearray(ctx.rng.randbytes(6 * npts))
+        j = next(j for j in range(len(w) - 2) if w[j] < 255 and w[j + 1] >= 2 and w[j + 2] < 255)
+        w2 = bytearray(w); w2[j] += 1; w2[j + 1] -= 2; w2[j + 2] += 1
+        for x in (w, w2, w, w2):
+            tw.append(("v1_high_res", "roundtrip", {"spe": "4024000000000000", "waveform": bytes(x).hex()}, ("roundtrip", "look-alike-twins")))
+    codec_run.run_items("san", tw, lambda sp, r, c: judge_item(ctx, sp, r, c), batch=4)
     # codecs with free-length content, sized so that the payload hits each boundary
     more = []
     for n in (16384, 32768, 65536):
